@@ -19,4 +19,18 @@ BLOCKS=$(python3 -c "import sys; sys.path.insert(0,'/verif'); from checkcfg impo
 for f in main prng proto netgen dispgen; do cp /verif/harness/src/$f.rs $S/harness/src/; done
 for b in $BLOCKS sp pt; do cp /verif/harness/src/b_$b.rs $S/harness/src/ 2>/dev/null || true; done
 cd /verif
+set +e
 VERIF_HARNESS=$S/harness VERIF_WORK=$S/work VERIF_REPLAYS=$S/replays VERIF_EVID=$S/evidence VERIF_REPO=$S/repo ./check $PID --tier $TIER
+RC=$?
+# the pre-hooks regenerated lean/Generated/* from the scratch repo: regenerate them from /repo again
+python3 - "$PID" <<'PY'
+import sys
+sys.path.insert(0, "/verif")
+from checkcfg import PROPS
+for fn in PROPS[sys.argv[1]].get("pre", []):
+    try:
+        fn("/verif")
+    except Exception as e:
+        print("restore pre-hook failed:", e)
+PY
+exit $RC
